@@ -23,6 +23,7 @@ DECIDES = ('for the dict formats (JSON/YAML/cfg share them): every key the impor
            'array they save (LY3f). exporters walk containers through the iteration protocol, which rewinds on every __iter__ and yields each element once (IT1). the knot vectors read from a file reach the imported shape unchanged only if that shape does not re-normalise them (IM1: known finding on the pinned tree for all five importers - shapes with un-normalised knot vectors come back normalised).')
 NOT_DECIDED = 'equality up to printed precision, float formatting/parsing, third-party serialisers (json/yaml/libconf) and file I/O; freeform/evaluated data.'
 TECHNIQUE = 'writer/reader key-set and record-table agreement, abstract interpretation of layouts through the file, weight-form typestate'
+DECIDES += (" [ABSTRACT INTERPRETATION, exact] CV3: the weight / flip converters and their 2-D file variants on monomial cells (a file variant saves the result of its own converter with that array's row / column counts).")
 
 PAIRS = [('export_dict_crv', 'import_dict_crv'), ('export_dict_surf', 'import_dict_surf'), ('export_dict_vol', 'import_dict_vol'),
          ('export_dict_ff', 'import_dict_ff'), ('export_dict_multi_crv', 'import_dict_multi_crv')]
